@@ -94,12 +94,14 @@ def collect {α} : List (Except BErr (List α)) → Except BErr (List α)
     | .ok b => .ok (a ++ b)
     | .error e => .error e
 
+def emitAttr (kvs : List (String × Arg)) (a : BAttr) : Except BErr (List (QName × String)) :=
+  match kvs.lookup a.name with
+  | some (.leaf t) => .ok [(⟨none, a.name⟩, t)]
+  | some .none | none => if a.required then .error .validation else .ok []
+  | some _ => .error .unsupported
+
 def emitAttrs (as : List BAttr) (kvs : List (String × Arg)) : Except BErr (List (QName × String)) :=
-  collect <| as.map fun a =>
-    match kvs.lookup a.name with
-    | some (.leaf t) => .ok [(⟨none, a.name⟩, t)]
-    | some .none | none => if a.required then .error .validation else .ok []
-    | some _ => .error .unsupported
+  collect (as.map (emitAttr kvs))
 
 mutual
 /-- one occurrence of an element of type `ty` carrying the (non-None) value `v` -/
